@@ -671,6 +671,12 @@ def standard_cases(tier, seed=0):
             _base("jacket", 0.01, 0.04, 1000, 200, jacket=dict(air_gap=1e-5, lambda_air=0.025)),
             _base("shelf", 0.02, 0.06, 2000, 600, dim="spatial_1D"),
         ]
+    if source_has_cn_fix():
+        # controlled nucleation (the model has the repaired test `T_k.min() <= cnTemp`, F4)
+        cs.append(_base("shelf", 0.01, 0.04, 1000, 200, cn=-8.0))
+        if tier != "quick":
+            cs.append(_base("jacket", 0.015, 0.03, 1000, 350, cn=-5.0))
+            cs.append(_base("shelf", 0.01, 0.04, 1000, 200, dim="spatial_1D", cn=-8.0))
     tries = 0
     while n_rand > 0 and tries < 200:
         tries += 1
